@@ -316,6 +316,18 @@ func firstRaceFrame(s string) string {
 }
 
 type concRS []concRS
+type concRS1 []concRS1
+type concRS2 []concRS2
+type concRM1 map[string]concRM1
+type concRM2 map[string]concRM2
+type concRA1 [1]*concRA1
+type concRQ1 []*concRQ1
+type concRN1 struct {
+	Name string  `json:"name"`
+	Kids concRK1 `json:"kids"`
+}
+type concRK1 []concRN1
+type concRP1 *concRP1
 type concRM map[string]concRM
 type concRA [1]*concRA
 
@@ -382,6 +394,66 @@ func concChild(args []string) {
 	rmVal := concRM{"a": concRM{"b": nil}, "c": concRM{}}
 	var ra0 concRA
 	raVal := concRA{&ra0}
+	// phase 0: simultaneous FIRST nested use of self-referential named types whose top-level codec is already cached
+	// (their inner codec is completed lazily). One barrier per type: all goroutines enter Marshal / Unmarshal together.
+	recCases := []struct {
+		warm func()
+		use  func() string
+	}{
+		{func() { json.Marshal(concRS1{}) }, func() string { b, _ := json.Marshal(concRS1{concRS1{}, concRS1{concRS1{}}}); return string(b) }},
+		{func() { json.Marshal(concRS2{}) }, func() string {
+			var v concRS2
+			json.Unmarshal([]byte(`[[],[[]]]`), &v)
+			b, _ := json.Marshal(v)
+			return string(b)
+		}},
+		{func() { json.Marshal(concRM1{}) }, func() string { b, _ := json.Marshal(concRM1{"a": concRM1{"b": nil}}); return string(b) }},
+		{func() { json.Marshal(concRM2{}) }, func() string {
+			var v concRM2
+			json.Unmarshal([]byte(`{"a":{"b":{}}}`), &v)
+			b, _ := json.Marshal(v)
+			return string(b)
+		}},
+		{func() { json.Marshal(concRA1{}) }, func() string { var z concRA1; b, _ := json.Marshal(concRA1{&z}); return string(b) }},
+		{func() { json.Marshal(concRQ1{}) }, func() string { b, _ := json.Marshal(concRQ1{&concRQ1{}, nil}); return string(b) }},
+		{func() { json.Marshal(concRK1{}) }, func() string {
+			b, _ := json.Marshal(concRK1{{Name: "a", Kids: concRK1{{Name: "b"}}}})
+			return string(b)
+		}},
+		{func() { json.Marshal(concRP1(nil)) }, func() string {
+			var p0 concRP1
+			p1 := concRP1(&p0)
+			b, _ := json.Marshal(concRP1(&p1))
+			return string(b)
+		}},
+	}
+	var phase0 []string
+	for _, rc := range recCases {
+		rc.warm()
+		outs := make([]string, G)
+		if mode == "conc" {
+			var ready, done sync.WaitGroup
+			gate := make(chan struct{})
+			for g := 0; g < G; g++ {
+				ready.Add(1)
+				done.Add(1)
+				go func(g int) {
+					defer done.Done()
+					ready.Done()
+					<-gate
+					outs[g] = rc.use()
+				}(g)
+			}
+			ready.Wait()
+			close(gate)
+			done.Wait()
+		} else {
+			for g := 0; g < G; g++ {
+				outs[g] = rc.use()
+			}
+		}
+		phase0 = append(phase0, outs...)
+	}
 	jobs := make([][]job, G)
 	for g := range jobs {
 		for k := 0; k < 40; k++ {
@@ -438,6 +510,10 @@ func concChild(args []string) {
 		}
 	}
 	hsh := sha256.New()
+	for _, r := range phase0 {
+		hsh.Write([]byte(r))
+		hsh.Write([]byte{1})
+	}
 	for g := range results {
 		for _, r := range results[g] {
 			hsh.Write([]byte(r))
@@ -505,7 +581,7 @@ func runC09(h *H) {
 	if h.Thorough() {
 		S = 80
 	}
-	procs := []string{"1", "2", "4", "16"}
+	procs := []string{"16", "4", "2", "1"}
 	for i := 0; i < S; i++ {
 		h.DoRisky("conc.stress", strconv.FormatUint(h.U64(), 10), procs[i%len(procs)], strconv.Itoa(4+h.Intn(28)), strconv.Itoa(2+h.Intn(12)))
 	}
